@@ -17,7 +17,7 @@ import textwrap
 from typing import List
 
 from vf.driver import Q
-from vf.h import REPLAY, P, reached, note, lib_errors, ref_avp, ref_msg, HarnessError, admit, untraced
+from vf.h import REPLAY, P, reached, note, lib_errors, ref_avp, ref_msg, HarnessError, admit, untraced, concrete
 from vf import avpgen as G
 
 import bromelia.base as BASE
@@ -230,8 +230,24 @@ def _inject_and_probe(node, blob):
             return "a lock is left held after a tick"
     if node.assoc.transport is None:
         return None                                  # the connection was closed cleanly: acceptable
+    if not P.get("framed", True):
+        # the bytes did not form a complete framed message: the byte stream may be left desynchronised (nothing a
+        # stream protocol can recover from), so later messages need not be delivered - but the node must stay responsive
+        with untraced():
+            from bromelia.base import DiameterMessage as DM
+            try:
+                node.d.send_message(DM.load(ref_msg(1, 0xc0, 316, 16777251, 1, 5, [ref_avp(263, 0x40, None, b"s;1;2")]))[0])
+                node.d.close()
+            except (LIB + (Exception,)) as e:
+                return f"local API call raised {type(e).__name__}"
+            return None
     while not node.assoc.postprocess_recv_messages.empty():
         node.assoc.postprocess_recv_messages.get()
+    # residual solver-valued state must not leak into the concrete probe: after a complete framed message the
+    # reassembly remainder is empty (realising it checks exactly that on every path)
+    node.assoc._recv_remainder = concrete(node.assoc._recv_remainder)
+    if len(node.assoc._recv_remainder) != 0:
+        return "bytes of a complete message were kept back by the receive worker"
     with untraced():          # from here on everything is concrete (the malformed delivery has been consumed)
         return _probe(node)
 
@@ -351,6 +367,7 @@ def length_grid():
             if name in ("msg", "avp0", "avp2", "member0") and (n % 3 == 0 or n < 24 or abs(n - len(wire)) < 6):
                 for role in ("CLIENT", "SERVER"):
                     P["ticks"] = 3
+                    P["framed"] = name != "msg"           # a wrong Message Length desynchronises the stream
                     why = _inject_and_probe(_open_node(role), w)
                     n_runs += 1
                     if why:
@@ -411,14 +428,14 @@ def queries(tier, seed):
                 qs.append(Q(f"B/avp/{role}/{cname}/L{L}", "live_avp", {"role": role, "cls": cname, "L": L}, cto=t, pto=t,
                             what=f"live {role}: request carrying {cname} with {L} arbitrary bytes; worker, ticks, locks, probe, API"))
         for which in (("msg", 0, 2) if tier != "quick" else (0,) if ri == 0 else ()):
-            qs.append(Q(f"B/length/{role}/{which}/beyond", "live_length", {"role": role, "which": which, "lo": n + 1, "hi": 2 ** 24 - 1}, cto=t, pto=t,
+            qs.append(Q(f"B/length/{role}/{which}/beyond", "live_length", {"role": role, "which": which, "lo": n + 1, "hi": 2 ** 24 - 1, "framed": which != "msg"}, cto=t, pto=t,
                         what=f"live {role}: {'Message' if which == 'msg' else 'AVP ' + str(which)} Length beyond the end of the data (every value)"))
         for dh, dr, Lh, Lr in (((1, 0, 3, 0), (0, 1, 0, 3), (1, 1, 10, 11), (2, 0, 10, 0), (0, 2, 0, 11), (0, 0, 0, 0)) if (tier != "quick" or ri == 0) else ((1, 1, 10, 11),)):
             qs.append(Q(f"B/misaddressed/{role}/dh{dh}dr{dr}", "live_misaddressed", {"role": role, "dh": dh, "dr": dr, "Lh": Lh, "Lr": Lr}, cto=t, pto=t,
                         what=f"live {role}: request with Destination-Host {'absent' if not dh else 'arbitrary' + (' (vendor-flagged)' if dh == 2 else '')}, "
                              f"Destination-Realm {'absent' if not dr else 'arbitrary' + (' (vendor-flagged)' if dr == 2 else '')}, arbitrary command flags"))
         for L in ((1, 19) if tier == "quick" else (1, 5, 19, 20, 21, 24)):
-            qs.append(Q(f"B/garbage/{role}/L{L}", "live_garbage", {"role": role, "L": L}, cto=t, pto=t, what=f"live {role}: {L} arbitrary bytes on the wire"))
+            qs.append(Q(f"B/garbage/{role}/L{L}", "live_garbage", {"role": role, "L": L, "framed": False}, cto=t, pto=t, what=f"live {role}: {L} arbitrary bytes on the wire"))
     return qs
 
 
